@@ -8,6 +8,7 @@ import (
 	"fmt"
 	modbus "github.com/aldas/go-modbus-client"
 	"math/rand"
+	"runtime"
 	"net"
 	"time"
 
@@ -66,7 +67,7 @@ func gen(g *mon.Gen) {
 	for i := 0; i < g.Pick(150, 10000); i++ {
 		g.Emit(&Case{Kind: "stream", Mode: []string{"dev", "typed-error", "generic-error"}[i%3], Seed: rng.Int63(), N: 2 + rng.Intn(6)})
 		if i < g.Pick(2, 12) {
-			g.Emit(&Case{Kind: "stalled-reader", Mode: "dev", Seed: rng.Int63()})
+			g.Emit(&Case{Kind: "stalled-reader", Mode: "dev", Seed: rng.Int63(), N: i})
 		}
 	}
 }
@@ -115,7 +116,7 @@ func mkFrame(rng *rand.Rand, class string, fcSel int) frame {
 		case 3, 4:
 			q.Qty = []uint16{0, 126, 127, 0xFFFF}[rng.Intn(4)]
 		case 5:
-			q.Value = []uint16{1, 0x00FF, 0xFF01, 0xFFFF}[rng.Intn(4)]
+			q.Value = []uint16{1, 0x00FF, 0xFF01, 0xFFFF, 0x0100, 0x8000, 0xFE00, uint16(1+rng.Intn(254)) << 8}[rng.Intn(8)]
 		case 15:
 			q.Qty = []uint16{0, 1969, 2000, 0xFFFF}[rng.Intn(4)]
 			if (q.Qty == 1969 || q.Qty == 2000) && rng.Intn(2) == 0 {
@@ -212,6 +213,25 @@ func handler(dev *simdev.Device, modeOf func(tid uint16) string) server.ModbusHa
 		case "panic-nilmap":
 			var m map[string]int
 			m["x"] = 1
+		case "lib-response":
+			// a handler that answers with the library's own response types and hands them the rest of its register bank
+			// as Data (a window bank[start*2:], longer than the byte count it states): the reply on the wire still has
+			// the length its header announces
+			if resp, err := devH.Handle(ctx, req); err == nil && resp != nil && (b[7] == 3 || b[7] == 4) {
+				rb := resp.Bytes()
+				if len(rb) >= 9 && rb[7] == b[7] {
+					data := append(append([]byte{}, rb[9:]...), 0xde, 0xad, 0xbe, 0xef, 0x01, 0x02)
+					if b[7] == 3 {
+						return &packet.ReadHoldingRegistersResponseTCP{MBAPHeader: packet.MBAPHeader{TransactionID: tid}, ReadHoldingRegistersResponse: packet.ReadHoldingRegistersResponse{UnitID: b[6], RegisterByteLen: rb[8], Data: data}}, nil
+					}
+					return &packet.ReadInputRegistersResponseTCP{MBAPHeader: packet.MBAPHeader{TransactionID: tid}, ReadInputRegistersResponse: packet.ReadInputRegistersResponse{UnitID: b[6], RegisterByteLen: rb[8], Data: data}}, nil
+				}
+				return resp, err
+			}
+		case "panic-goexit":
+			// not a panic in the language's sense, but the same thing to the server: the handler's goroutine ends without
+			// returning (what t.FailNow or log.Fatal-style helpers do when called inside a handler)
+			runtime.Goexit()
 		}
 		return devH.Handle(ctx, req)
 	})
@@ -286,7 +306,7 @@ func readReplyErr(conn net.Conn) ([]byte, error) {
 }
 
 // isDev: the handler answers from the simulated device (at once or after a while).
-func isDev(m string) bool { return m == "dev" || m == "slow" }
+func isDev(m string) bool { return m == "dev" || m == "slow" || m == "lib-response" }
 
 func isPanicMode(m string) bool { return len(m) > 5 && m[:5] == "panic" }
 
@@ -369,12 +389,24 @@ func runStalled(c *Case, r *mon.Rec, rng *rand.Rand) {
 		r.Violate(c, "no-reply", mon.Attrs{"where": "stalled-reader"}, "no reply bytes at all")
 		return
 	}
-	time.Sleep(500 * time.Millisecond) // the server's write (150 ms) gives up meanwhile
+	// the server's write (150 ms) gives up meanwhile. Half of the runs come back soon after that (220 ms): whatever the
+	// server does about a write that timed out half-way, the bytes the client already has are not sent a second time
+	stall := 500 * time.Millisecond
+	if c.N%2 == 0 {
+		stall = 220 * time.Millisecond
+	}
+	time.Sleep(stall)
 	// the client comes back: it sends its next request and reads whatever the connection still delivers
 	q2 := specref.Req{FC: 3, Unit: q1.Unit, TID: 0x2212, Addr: 7, Qty: 3}
+	var early []byte
+	if stall < 300*time.Millisecond {
+		// (the soon-returning client reads first: on this synchronous transport its own write would otherwise wait for the
+		// server, which may be busy writing)
+		early = srvx.Drain(cli, 400*time.Millisecond)
+	}
 	_ = cli.SetWriteDeadline(time.Now().Add(300 * time.Millisecond))
 	_, _ = cli.Write(q2.Encode(specref.TCP))
-	rest := srvx.Drain(cli, 600*time.Millisecond)
+	rest := append(early, srvx.Drain(cli, 600*time.Millisecond)...)
 	all := append(append([]byte{}, head2...), rest...)
 	r.Distinct(mon.Mix(0x57a11, uint64(c.Seed)))
 	r.Cover("stalled-reader", fmt.Sprintf("bytes-after-the-stall=%v", len(rest) > 0))
@@ -383,7 +415,7 @@ func runStalled(c *Case, r *mon.Rec, rng *rand.Rand) {
 	if bytes.HasPrefix(want1, all) || bytes.Equal(all, append(append([]byte{}, want1...), want2...)) {
 		return
 	}
-	r.Violate(c, "reply-after-torn-reply", mon.Attrs{"where": "stalled-reader"}, fmt.Sprintf("the client read 2 bytes of a %d-byte reply, stalled 500 ms (write timeout 150 ms) and came back: the connection then delivered % x - not a prefix of the first reply and not the two complete replies", len(want1), head(all)))
+	r.Violate(c, "reply-after-torn-reply", mon.Attrs{"where": "stalled-reader"}, fmt.Sprintf("the client read 2 bytes of a %d-byte reply, stalled %v (write timeout 150 ms) and came back: the connection then delivered % x - not a prefix of the first reply and not the two complete replies", len(want1), stall, head(all)))
 }
 
 // runStream: k frames that each call for exactly one reply, concatenated and cut at PRNG positions (next request sent
@@ -540,7 +572,7 @@ func runSeq(c *Case, r *mon.Rec, rng *rand.Rand) {
 		used[f.tid] = true
 		f.mode = "dev"
 		if f.class == "valid" {
-			f.mode = []string{"dev", "dev", "typed-error", "generic-error", "panic-string", "panic-error", "panic-nilmap", "mutate-then-error", "foreign-exception", "slow"}[rng.Intn(map[bool]int{true: 10, false: 9}[slowCase])]
+			f.mode = []string{"dev", "dev", "typed-error", "generic-error", "panic-string", "panic-error", "panic-nilmap", "panic-goexit", "mutate-then-error", "foreign-exception", "lib-response", "lib-response", "slow"}[rng.Intn(map[bool]int{true: 13, false: 12}[slowCase])]
 		}
 		modes[f.tid] = f.mode
 		steps = append(steps, step{f: f})
@@ -569,7 +601,7 @@ func runSeq(c *Case, r *mon.Rec, rng *rand.Rand) {
 		return cli, cli
 	}
 	_ = dial
-	fault, _, err := l.Dial(2 * time.Second)
+	fault, faultRC, err := l.Dial(2 * time.Second)
 	if err != nil {
 		r.Inconclusive("cannot connect: " + err.Error())
 		return
@@ -627,6 +659,7 @@ func runSeq(c *Case, r *mon.Rec, rng *rand.Rand) {
 					nc.Close()
 				} else {
 					fault = nc
+					faultRC = nil
 					conn = nc
 				}
 			}
@@ -670,8 +703,20 @@ func runSeq(c *Case, r *mon.Rec, rng *rand.Rand) {
 			if len(got) > 0 {
 				r.Violate(c, "reply-after-handler-panic", mon.Attrs{"mode": f.mode}, fmt.Sprintf("step %d: % x", i, head(got)))
 			}
+			if faultRC != nil && conn == fault {
+				closed := false
+				for t := time.Now(); time.Since(t) < 2*time.Second; time.Sleep(time.Millisecond) {
+					if faultRC.ServerCloses() > 0 {
+						closed = true
+						break
+					}
+				}
+				if !closed {
+					r.Violate(c, "connection-left-open-after-handler-panic", mon.Attrs{"mode": f.mode}, fmt.Sprintf("step %d: the handler's goroutine ended (%s) without a reply; 2 s later the server had still not closed that connection", i, f.mode))
+				}
+			}
 			conn.Close()
-			fault, _, err = l.Dial(2 * time.Second) // a new connection must still be served
+			fault, faultRC, err = l.Dial(2 * time.Second) // a new connection must still be served
 			if err != nil {
 				r.Violate(c, "server-unreachable-after-panic", mon.Attrs{"mode": f.mode}, fmt.Sprintf("step %d: %v", i, err))
 				fault = nil
